@@ -33,5 +33,12 @@ def premises(cx, out, wanted):
             if r in sub.rule_texts and r not in out.rule_texts:
                 out.rule(r, sub.rule_texts[r] + ' (rule of %s, a premise of this property)' % owner.upper())
         out.absorb(sub, set(rules))
+        # fail closed: a premise rule the owner's run never evaluated (its fixture did not build, an anchor disappeared, the
+        # run stopped early) must not count as holding
+        for r in sorted(rules):
+            if sub.by_rule.get(r, [0, 0])[0] == 0:
+                why = [f for f in sub.findings]
+                msg = ('%s [%s] %s' % (why[0].rule, why[0].key, why[0].msg))[:400] if why else 'the run of %s produced no obligation for it' % owner.upper()
+                out.fail(r, 'premise %s of %s evaluated' % (r, owner.upper()), 'the premise was not evaluated: ' + msg, why[0].loc if why else '-')
         for u in sub.units:
             out.units.add(u)
